@@ -244,9 +244,6 @@ func VerifMemStaleHandles() {
 	}
 	all := []int{vhRead, vhReadAt, vhWrite, vhWriteAt, vhSeek, vhSize}
 	second := []int{vhRead, vhSize}
-	if verif.Bound("full-second-probe", 0, 1) == 1 {
-		second = all
-	}
 	hh.probe(handles[verif.Choice("handle", 2)], all)
 	hh.probe(handles[verif.Choice("handle", 2)], second)
 	hh.check()
